@@ -45,12 +45,16 @@ type Global struct {
 	tableByFn      map[string]*TableFunc
 	repo           string
 	verifDir       string
-	contractSource map[string]string // pkg -> path used
+	contractSource map[string]string   // pkg -> path used
+	lockedLocals   map[string][]string // function key -> "name|type" of every variable it declares, in source order, when the lock was written
+	renameCache    map[string]map[string]types.Object
 }
 
 func loadAll(repo, verifDir string) (*Global, error) {
 	g := &Global{pkgs: map[string]*packages.Package{}, funcs: map[string]*FuncInfo{}, funcByObj: map[*types.Func]*FuncInfo{}, tableByFn: map[string]*TableFunc{}, repo: repo, verifDir: verifDir, contractSource: map[string]string{}}
 	g.fset = token.NewFileSet()
+	readJSON(filepath.Join(verifDir, "locals.lock.json"), &g.lockedLocals)
+	g.renameCache = map[string]map[string]types.Object{}
 	cfg := &packages.Config{Mode: packages.NeedName | packages.NeedFiles | packages.NeedSyntax | packages.NeedTypes | packages.NeedTypesInfo | packages.NeedImports | packages.NeedDeps,
 		Dir: repo, Fset: g.fset, BuildFlags: []string{"-tags=verif"},
 		Env: append(os.Environ(), "GOFLAGS=-mod=mod", "GOPROXY=off", "GOSUMDB=off", "GOTOOLCHAIN=local")}
@@ -505,6 +509,16 @@ func (x *Exec) prepass() {
 								k := "assign:" + id.Name
 								anchorCount[k]++
 								x.anchors[s] = append(x.anchors[s], fmt.Sprintf("%s#%d", k, anchorCount[k]))
+								// alias under the name the variable had when the lock was written
+								obj := info.Defs[id]
+								if obj == nil {
+									obj = info.Uses[id]
+								}
+								for oldName, o := range x.g.renameMap(x.fi) {
+									if o == obj {
+										x.anchors[s] = append(x.anchors[s], fmt.Sprintf("assign:%s#%d", oldName, anchorCount[k]))
+									}
+								}
 							}
 						}
 					case *ast.SwitchStmt:
@@ -1058,4 +1072,91 @@ func (x *Exec) execPrefix(list []ast.Stmt, st *State, env *Env) Flow {
 		fl.ret = x.merge(fl.ret, f.ret)
 	}
 	return fl
+}
+
+// declList: every variable the function declares (parameters, named results, locals), in source order.
+func (g *Global) declList(fi *FuncInfo) []types.Object {
+	info := fi.Pkg.TypesInfo
+	var objs []types.Object
+	add := func(id *ast.Ident) {
+		if id == nil || id.Name == "_" {
+			return
+		}
+		if obj, ok := info.Defs[id].(*types.Var); ok && obj != nil {
+			objs = append(objs, obj)
+		}
+	}
+	if fi.Decl != nil && fi.Decl.Recv != nil {
+		for _, f := range fi.Decl.Recv.List {
+			for _, id := range f.Names {
+				add(id)
+			}
+		}
+	}
+	if fi.Type != nil {
+		for _, fl := range []*ast.FieldList{fi.Type.Params, fi.Type.Results} {
+			if fl == nil {
+				continue
+			}
+			for _, f := range fl.List {
+				for _, id := range f.Names {
+					add(id)
+				}
+			}
+		}
+	}
+	ast.Inspect(fi.Body, func(n ast.Node) bool {
+		if id, ok := n.(*ast.Ident); ok {
+			add(id)
+		}
+		return true
+	})
+	sort.SliceStable(objs, func(i, j int) bool { return objs[i].Pos() < objs[j].Pos() })
+	return objs
+}
+
+func (g *Global) declStrings(fi *FuncInfo) []string {
+	var out []string
+	q := func(p *types.Package) string { return p.Name() }
+	for _, o := range g.declList(fi) {
+		out = append(out, o.Name()+"|"+types.TypeString(o.Type(), q))
+	}
+	return out
+}
+
+// renameMap: names the contract may still use for variables that were merely renamed since the lock was written. Only
+// when the function declares the same number of variables with the same types in the same order as recorded; a recorded
+// name maps to the variable now declared at its position if the name was unique in the function and has changed.
+func (g *Global) renameMap(fi *FuncInfo) map[string]types.Object {
+	if m, ok := g.renameCache[fi.Key]; ok {
+		return m
+	}
+	var m map[string]types.Object
+	rec := g.lockedLocals[fi.Key]
+	cur := g.declList(fi)
+	curS := g.declStrings(fi)
+	if len(rec) > 0 && len(rec) == len(cur) {
+		same := true
+		count := map[string]int{}
+		for i := range rec {
+			ri := strings.SplitN(rec[i], "|", 2)
+			ci := strings.SplitN(curS[i], "|", 2)
+			if len(ri) != 2 || ri[1] != ci[1] {
+				same = false
+				break
+			}
+			count[ri[0]]++
+		}
+		if same {
+			m = map[string]types.Object{}
+			for i := range rec {
+				old := strings.SplitN(rec[i], "|", 2)[0]
+				if old != cur[i].Name() && count[old] == 1 {
+					m[old] = cur[i]
+				}
+			}
+		}
+	}
+	g.renameCache[fi.Key] = m
+	return m
 }
